@@ -23,4 +23,6 @@ func TestGenReference(t *testing.T) {
 	}
 	b, _ := json.MarshalIndent(out, "", " ")
 	os.WriteFile("/verif/reference/proto_schema.json", append(b, '\n'), 0o644)
+	pb, _ := json.MarshalIndent(submessagePresence(p), "", " ")
+	os.WriteFile("/verif/reference/proto_presence.json", append(pb, '\n'), 0o644)
 }
